@@ -142,7 +142,10 @@ class C15(common.Spec):
                         else:
                             ins.append([iname, enc_resolved(ival)])
                     o['inputs'] = ins
-                    conf = blk.get_conf().get('inputs')
+                    try:
+                        conf = blk.get_conf().get('inputs')
+                    except Exception as err:       # unresolved input left behind: reported as a wrong conf
+                        conf = {'get_conf_raised': type(err).__name__}
                     if conf is not None:
                         o['conf'] = [[k, ['group', [['blk', x] for x in v]] if isinstance(v, tuple)
                                       else ['blk', v]] for k, v in conf.items()]
